@@ -11,7 +11,8 @@ type harnessSpec struct {
 	Conc         int
 	TimeFixed    bool     // time.Now returns a fixed instant
 	SymAddr      bool     // object addresses are symbolic (every alignment is explored)
-	TimersMayFire bool    // timers with a finite duration may fire (forked at the select that waits on them)
+	TimersMayFire bool
+	NoValidate    bool // the harness measures cost: its native outcome depends on wall time, so passing paths are not compared with the native run    // timers with a finite duration may fire (forked at the select that waits on them)
 	Stall        bool     // a path that exhausts its step budget is a candidate stall, replayed natively under a watchdog
 	Labels       []string // vReach labels that must be reached (vacuity witnesses)
 	Bound        string   // the bound in words (quick)
@@ -228,6 +229,7 @@ func init() {
 		Harnesses: []harnessSpec{
 			{Pkg: "amf0", Func: "HarnessC07_Amf0", Stall: true, Labels: []string{"c07-amf0", "c07-amf0-accepted"}, Bound: "every byte string of 0..10 bytes (thorough 0..13) through Discovery+UnmarshalBinary and through each concrete type's decoder"},
 			{Pkg: "amf0", Func: "HarnessC07_Amf0Truncated", Stall: true, Labels: []string{"c07-amf0-trunc", "c07-amf0-trunc-accepted"}, Bound: "encodings of a container (object/ECMA/strict) nested in a container, with 4 kinds of leaf and an optional sibling, cut at every offset"},
+			{Pkg: "amf0", Func: "HarnessC07_Amf0Linear", Steps: 200000000, NoValidate: true, Labels: []string{"c07-amf0-linear"}, Bound: "linear-time clause, AMF0: objects / ECMA arrays / strict arrays nested 16, 32, 64 deep and one object with 16, 32, 64 properties (leaf number symbolic); cost = SSA instructions interpreted + elements copied; cost(4n)-cost(2n) <= 2.5 (cost(2n)-cost(n)); native confirmation of a counterexample by wall time at a size where one decode takes milliseconds (cost(4n) <= 9 cost(n))"},
 			{Pkg: "amf0", Func: "HarnessC07_Amf0Enums", Labels: []string{"c07-amf0-enums"}, Bound: "marker.String() over all 256 values"},
 			{Pkg: "json", Func: "HarnessC07_Json", Stall: true, Labels: []string{"c07-json", "c07-json-accepted"}, Bound: "every byte string of 0..5 bytes (thorough 0..7) through NewJsonPlusReader+ReadAll, delivered whole, byte by byte, or split once at every offset"},
 			{Pkg: "rtmp", Func: "HarnessC07_Chunks", Stall: true, Labels: []string{"c07-chunks"}, Bound: "ReadMessage until error over every byte string of 0..12 bytes (thorough 0..16), input chunk size default 128 or symbolic 1..4"},
